@@ -520,7 +520,42 @@ impl<'a> Gen<'a> {
     }
 }
 
+fn generate_threads(seed: u64, index: u64) -> Program {
+    let mut r = Rng::new(mix(seed, hash_str("threads"), index));
+    let mut prog = Program::empty("threads");
+    prog.seed = (seed, index);
+    prog.config = config_name();
+    let n = match r.below(20) {
+        0..=9 => 2,
+        10..=13 => 3,
+        14..=16 => 4,
+        17 => 16,
+        _ => 5 + r.below(8),
+    } as usize;
+    for t in 0..n {
+        let sub = generate("graph", mix(seed, 0x7EAD + t as u64, index), index);
+        let mut ops = sub.ops;
+        let keep = 3 + r.below(14) as usize;
+        ops.truncate(keep);
+        prog.threads.push(ThreadPlan { tls_first: r.chance(1, 2), tls_keep: r.below(4) as u32, ops, knobs: sub.knobs });
+    }
+    let total: usize = prog.threads.iter().map(|t| t.ops.len() + 3).sum();
+    let style = r.below(3);
+    for k in 0..total {
+        let t = match style {
+            0 => r.below(n as u64),                                    // uniform
+            1 => ((k / (1 + r.below(3) as usize)) % n) as u64,         // short bursts
+            _ => if r.chance(3, 4) { (k * n / total.max(1)) as u64 } else { r.below(n as u64) }, // mostly sequential
+        };
+        prog.schedule.push(t as u8);
+    }
+    prog
+}
+
 pub fn generate(profile: &str, seed: u64, index: u64) -> Program {
+    if profile == "threads" {
+        return generate_threads(seed, index);
+    }
     let p = params(profile);
     let mut r = Rng::new(mix(seed, hash_str(profile), index));
     let mut prog = Program::empty(profile);
